@@ -200,9 +200,13 @@ pub fn domain_message_ok(dom: &Domain, msg: &str) -> bool {
             toks.contains(received) && toks.contains(bound)
         }
         Domain::Zero => {
-            // "non-zero" describes the target, not what was received
-            let m = msg.to_lowercase().replace("non-zero", "").replace("nonzero", "");
-            m.contains("zero") || toks.iter().any(|t| t == "0")
+            // it must say that a zero was received where none is allowed: either the word
+            // "zero" outside "non-zero", or the number 0 together with the non-zero constraint
+            // ("0 is too small, minimum -128" names neither)
+            let lower = msg.to_lowercase();
+            let constraint = lower.contains("non-zero") || lower.contains("nonzero") || lower.contains("non zero") || lower.contains("not zero");
+            let m = lower.replace("non-zero", "").replace("nonzero", "").replace("non zero", "").replace("not zero", "");
+            m.contains("zero") || (constraint && toks.iter().any(|t| t == "0"))
         }
         Domain::CharEmpty => msg.to_lowercase().contains("empty"),
         Domain::CharLen { string, count } => msg.contains(string.as_str()) && toks.contains(&count.to_string()),
